@@ -3,12 +3,12 @@ from ._common import STD_TRUST
 PROP = dict(
     level='proof',
     regen=['crctable', 'wireconsts'],
-    theorems=['Fit.C02.C02_datasize', 'Fit.C02.C02_header_crc', 'Fit.C02.C02_crc_whole_sequence_partial',
+    theorems=['Fit.C02.C02_parses', 'Fit.C02.C02_datasize', 'Fit.C02.C02_header_crc', 'Fit.C02.C02_crc_whole_sequence_partial',
               'Fit.C02.C02_legacy_crc_witness', 'Fit.C02.C02_decodes'],
     families=[dict(name='encw', prop=True)],
     trusted_base=STD_TRUST + [
         "FitModel/FitFormat.lean is the specification (an independent reading of the FIT framing); the driver evaluates it (parseStream, header CRC, file CRC over header+records, sequence count, header/CRC written back to the caller) on the bytes the REAL encoder wrote for every operation of family encw",
-        "the structural half of WellFormed (parseStream succeeds on every output of the model encoder) is checked on the implementation's bytes, not yet proved over the model (C02_wellformed_full stays a def); proved: data size exact, header CRC, file CRC = CRC of the whole sequence for 14-byte headers (crc_append_self), the SDK decoder accepts every successful encode (C02_decodes)",
+        "proved over the model: parseStream succeeds with one sequence per FIT value (C02_parses, via records_spec: the decoder's framing refines the spec's), data size exact, header CRC, file CRC = CRC of the whole sequence for 14-byte headers (crc_append_self), the SDK decoder accepts every successful encode (C02_decodes)",
     ],
     assumptions=["inputs satisfy FitOK (what validation lets through; C10)", "14-byte headers for the whole-sequence CRC (12-byte: KF-C02-legacy-crc)"],
 )
@@ -16,5 +16,5 @@ PROP = dict(
 TEXT = dict(
     technique='Lean 4 proof over the wire-level encoder model (data size, header CRC, whole-sequence CRC via the CRC residue lemma, acceptance by the decoder model) + the independent framing spec FitFormat evaluated by the Lean driver on the real encoder output',
     text='For every message list and option combination the model encoder writes a header whose data size is the exact record byte count, a correct header CRC and — for 14-byte headers — a file CRC equal to the CRC-16 of every preceding byte of the sequence; the decoder model accepts the result with checksums on (one sequence per FIT value). On the implementation the same is evaluated directly: the bytes written by the real encoder (4 writer kinds × 10 buffer sizes × chained files) must parse under the independent spec with correct CRCs and match the header/CRC stored back into the caller. 12-byte headers store a records-only CRC (known finding).',
-    note='Trusted: Lean kernel, FitFormat spec as written, harness/driver. parseStream-succeeds is not yet a theorem over the model (evaluated on real output only).',
+    note='Trusted: Lean kernel, FitFormat spec as written, harness/driver. The CRC theorems are stated on bytes, not yet through SeqView offsets of a chain.',
 )
